@@ -789,9 +789,14 @@ pub fn exec_case(case: &Case, opt: &ExecOpt) -> Outcome {
                         out.violation = Some(viol(case, "error-identity", name, i as i64, format!("returned ResetPin({:?}), fired {:?}", e, &w.fired[fired_before..])));
                     }
                 }
+                InitFail::InvalidDisplaySize | InitFail::InvalidDisplayOffset | InitFail::UnsupportedInterface => {
+                    // which windows / pairings init accepts is the statement of C09 / C11, and
+                    // their checks judge it on first initialisations; here the run just ends
+                    out.skipped = Some("re-initialisation was refused");
+                }
                 other => {
                     if orc.subject(&case.property, op) {
-                        out.violation = Some(viol(case, "reinit-failed", name, i as i64, format!("re-initialisation with a valid configuration failed: {:?}", other)));
+                        out.violation = Some(viol(case, "reinit-failed", name, i as i64, format!("re-initialisation failed without any injected fault: {:?}", other)));
                     } else {
                         out.skipped = Some("re-initialisation failed");
                     }
